@@ -98,6 +98,7 @@ class Worker:
             PV_FIXTURES=FIXTURES,
             RUSTFLAGS="--cap-lints allow",
             CARGO_TERM_COLOR="never",
+            CARGO_INCREMENTAL="0",
         )
         env.pop("RUSTC_WRAPPER", None)
         cmd = ["cargo", sub, "-q", "--offline", "--manifest-path", os.path.join(self.smoke, "Cargo.toml"), "--no-default-features"]
@@ -126,6 +127,11 @@ class Worker:
         return p.returncode, p.stderr
 
 
+def is_compile_failure(stderr):
+    """True only for a failure of rustc on the code (never for I/O trouble such as a full disk)."""
+    return ("error[E" in stderr) or ("error: could not compile" in stderr) or ("aborting due to" in stderr)
+
+
 def first_errors(stderr, n=6):
     out = []
     for line in stderr.splitlines():
@@ -145,6 +151,8 @@ def evaluate(worker, kind, cfg):
         if rc == 124:
             return None, {"why": "timeout", "cmd": cmd}
         if rc != 0:
+            if not is_compile_failure(err):
+                return None, {"why": "infrastructure", "cmd": cmd, "errors": first_errors(err) or err.strip().splitlines()[-3:]}
             return False, {"why": "does not compile", "cmd": cmd, "errors": first_errors(err), "codes": error_codes(err)}
         return True, {}
     rc, out, err, cmd = worker.cargo("run", cfg)
@@ -152,7 +160,9 @@ def evaluate(worker, kind, cfg):
         return None, {"why": "timeout", "cmd": cmd}
     if rc != 0:
         errs = first_errors(err)
-        if errs:
+        if errs and not is_compile_failure(err) and "FAIL " not in out:
+            return None, {"why": "infrastructure", "cmd": cmd, "errors": errs}
+        if errs and is_compile_failure(err):
             return False, {"why": "does not compile", "cmd": cmd, "errors": errs, "codes": error_codes(err)}
         tail = (out + "\n" + err).strip().splitlines()[-6:]
         return False, {"why": "smoke run failed (exit %d)" % rc, "cmd": cmd, "output": tail}
@@ -373,11 +383,17 @@ def main():
     def run_worker(i):
         w = Worker(i, root)
         subprocess.run(["cp", "-a", warm_dir, w.target], check=False)
+        done = 0
         while True:
             try:
                 kind, cfg, grp = q.get_nowait()
             except queue.Empty:
                 break
+            if done and done % 12 == 0:
+                # every configuration leaves its own build of the library behind: start again from the warm copy
+                shutil.rmtree(w.target, ignore_errors=True)
+                subprocess.run(["cp", "-a", warm_dir, w.target], check=False)
+            done += 1
             ok, detail = evaluate(w, kind, cfg)
             with lock:
                 results.append((kind, cfg, grp, ok, detail))
@@ -470,7 +486,7 @@ def main():
     ])
     shutil.rmtree(root, ignore_errors=True)
     if exit_code == 0 and timeouts:
-        print("INCONCLUSIVE: %d configurations timed out" % len(timeouts))
+        print("INCONCLUSIVE: %d configurations could not be evaluated (timeout or I/O trouble, e.g. a full disk)" % len(timeouts))
         return 2
     print("C20 %s: %d configurations evaluated, %d failing, %d unlisted violation signature(s), %.1fs" % (tier, len(evaluated), len(failures), len(reported), time.time() - t0))
     return exit_code
